@@ -316,6 +316,7 @@ type IntentOpts struct {
 	PathVarRefs    bool // REST path variables typed by a bare local type name or App.Type
 	MultiLineAnnos bool // string annotations written in the multi-line form '@k =:' + '| text' lines
 	EpAnnos        bool // simple endpoints may carry annotations ('@k = v' lines at the top of their body)
+	SubsBeforePub  bool // a subscriber may be written above its publisher (the event's statements follow walk order)
 	PlusText       bool // a literal '+' in return payloads, call endpoints and action text
 	// SubsOrderFree: at most one subscriber per (publisher, event) in the whole specification, and only to
 	// events the publisher does not give statements of its own - then no statement order depends on the
@@ -354,7 +355,11 @@ func GenIntentOpt(t *rapid.T, opts IntentOpts) *Intent {
 	}
 	if opts.Subs {
 		usedAll := map[string]bool{}
-		for i := 1; i < len(in.Apps); i++ {
+		first := 1
+		if opts.SubsBeforePub && len(in.Apps) > 1 {
+			first = 0
+		}
+		for i := first; i < len(in.Apps); i++ {
 			a := in.Apps[i]
 			ns := rapid.IntRange(0, 2).Draw(t, "nsubs")
 			used := map[string]bool{}
@@ -362,7 +367,17 @@ func GenIntentOpt(t *rapid.T, opts IntentOpts) *Intent {
 				used = usedAll
 			}
 			for k := 0; k < ns; k++ {
-				pub := in.Apps[rapid.IntRange(0, i-1).Draw(t, "pubapp")]
+				pi := 0
+				if opts.SubsBeforePub {
+					// any other application, also one that is written further down
+					pi = rapid.IntRange(0, len(in.Apps)-2).Draw(t, "pubapp")
+					if pi >= i {
+						pi++
+					}
+				} else {
+					pi = rapid.IntRange(0, i-1).Draw(t, "pubapp")
+				}
+				pub := in.Apps[pi]
 				ev := pick(t, eventPool, "subev")
 				key := appKey(pub.Name) + "->" + ev
 				// the publisher must not declare a non-event endpoint of that name
